@@ -192,7 +192,7 @@ theorem l1_carries_max (ms : List L1) (hne : ms ≠ []) :
 
 /-! ### Open-order details (via the C01 model) -/
 
-def snapOpen (c : Nat) (q p : Rat) (o : Open) : Op := .snapshot ⟨c, q, p, .active (.opn o)⟩
+def snapOpen (c : Nat) (q p : Rat) (o : Open) : Op := .snapshot ⟨c, q, p, .active (.opn o), 0⟩
 def toMsg (o : Open) : Msg Open := (o.t, o)
 
 /-- Open reports (with something left to fill) delivered to an untracked or open order behave as the
